@@ -31,11 +31,15 @@ package backup
 //@   assumed
 //@   ensures result != nil
 //@   modifies nothing
+// ghost: upload streams opened through this client
+//@ ghostfield any.nstreams Int
 //@ iface regattapb.MaintenanceClient.Restore
 //@   assumed
+//@   params c, ctx, opts
 //@   results stream, err
 //@   ensures err == nil ==> stream != nil
-//@   modifies nothing
+//@   ensures c.nstreams == old(c.nstreams) + 1
+//@   modifies c.nstreams
 //@ iface regattapb.Maintenance_RestoreClient.Send
 //@   assumed
 //@   modifies nothing
@@ -64,5 +68,52 @@ package backup
 //@ func (*Backup).Restore
 //@   requires b != nil
 //@   before regattapb.MaintenanceClient.Restore assert [C07.md5] hexS(md5b(tf.whole)) == table.MD5
-//@   modifies b.Log, b.Timeout, b.clock
+// a checksum is taken only of a completely read file; the upload is closed only after the whole file went out;
+// EVERY manifest entry is uploaded - also the image of an empty table (a restore must make the table empty)
+//@   before hash.Hash.Sum assert [C07.md5.complete] world.copyok
+//@   before regattapb.Maintenance_RestoreClient.CloseAndRecv assert [C07.upload.complete] world.copyok
+//@   modifies b.Log, b.Timeout, b.clock, family(G_any_nstreams)
 //@   loop 0 invariant hash != nil && sc != nil && b.Log != nil && -1 <= rangeindex && rangeindex < len(manifest.Tables)
+//@   loop 0 step [C07.restore.each] sc.nstreams == prev(sc.nstreams) + 1
+
+// ---------------------------------------------------------------- taking a backup (C07)
+
+// Backup: a table's file is synced and vouched for by a checksum in the manifest only after its
+// stream was copied to the end without error - a stream that breaks off is an error, never a backup
+//@ import sort "sort"
+//@ trustframe "sort" "fmt" "encoding/json" "time"
+//@ func regattapb.NewClusterClient
+//@   assumed
+//@   ensures result != nil
+//@   modifies nothing
+//@ iface regattapb.ClusterClient.Status
+//@   assumed
+//@   results st, err
+//@   ensures err == nil ==> st != nil
+//@   modifies nothing
+//@ iface regattapb.MaintenanceClient.Backup
+//@   assumed
+//@   results stream, err
+//@   ensures err == nil ==> stream != nil
+//@   modifies nothing
+//@ iface backup.Clock.Now
+//@   assumed
+//@   modifies nothing
+//@ func os.Create
+//@   assumed
+//@   results f, err
+//@   ensures err == nil ==> f != nil && fresh(f)
+//@   modifies nothing
+//@ func io.MultiWriter
+//@   assumed
+//@   ensures result != nil && fresh(result)
+//@   modifies nothing
+//@ func (*Backup).Backup$1
+//@   requires *manFile != nil
+//@   modifies nothing
+//@ func (*Backup).Backup
+//@   maypanic
+//@   requires b != nil
+//@   before hash.Hash.Sum assert [C07.md5.complete] world.copyok
+//@   modifies allfields(Backup), family(G_any_sdata), family(G_any_slen), family(G_any_nmsg), family(G_any_msg), family(G_any_rest), allelems(uint8)
+//@   loop 0 invariant b.Log != nil && sc != nil && (isNilSlice(manifest.Tables) || fresh(manifest.Tables))
